@@ -321,13 +321,21 @@ def _nd_own(ctx, R, roles, T):
                     "collected payloads are appended once", "the collected early payloads can be appended twice", fl.loc(an.ast))
     # "never substitutes a timeout for a failure the device already reported": the time allowed for the OKAY starts when the data has been sent -
     # a clock started before the send charges the (possibly long) write to the wait, and the check only runs after an early report has come in
-    from .c11 import deadline_tests
+    from .c11 import deadline_tests, loop_nodes, raised_classes
     for n, c in reads:
         if not n.loops or not snd:
             continue
+        governed = set()
         for (tn, _bound, start, _g) in deadline_tests(ctx, fl, n.loops[-1]):
+            governed |= set(g.reach_from_edge(tn, "true", exc=False))
             if isinstance(start, str) and start.startswith("start@"):
                 sn_ = g.nodes[int(start[6:])]
                 R.check(g.dominates([snd[0][0]], sn_), "ND-own", q + "|clock-after-send", "the wait for the OKAY is timed from the moment the data was sent",
                         "the deadline for the OKAY is measured from before the data is sent: a slow write eats the time allowed for the device's answer", fl.loc(sn_.ast))
+        # ... and the wait gives up on nothing else: a time-out raised in this loop on any other condition (the age of the whole transaction, a
+        # clock kept elsewhere) can fire right after an early failure report came in, replacing it
+        for x in g.live_nodes():
+            if x.kind == "stmt" and isinstance(x.ast, ast.Raise) and n.loops[-1] in x.loops and "AdbTimeoutError" in raised_classes(ctx, fl, x, x.ast.exc):
+                R.check(x in governed, "ND-own", q + "|timeout-own-clock|" + norm_stmt(x.ast)[:40], "a time-out raised in the OKAY wait is decided by the wait's own clock",
+                        "a time-out in the OKAY wait is not decided by a clock this wait started after sending: it can replace a failure the device has already reported", fl.loc(x.ast))
     # the other awaiting sites, for the record (the rule is deliberately not applied there, see DESIGN section 5 C10)
